@@ -35,10 +35,10 @@ type PartySpec struct {
 }
 
 type StepSpec struct {
-	Op      string `json:"op"`                 // rinit, rresp, rdata, tun, kick, restart, cookie
+	Op      string `json:"op"`                 // rinit, rresp, rdata, tun, kick, restart, cookie, setkey
 	Party   int    `json:"party"`              // acting ref party (rinit, rresp, rdata) or addressed peer (tun, kick)
-	RespKey string `json:"resp_key,omitempty"` // rinit: "" = the device's key, "other" = another key S'
-	MacKey  string `json:"mac_key,omitempty"`  // rinit: "" = the device's key, "other" = the other key
+	RespKey string `json:"resp_key,omitempty"` // rinit: "" = the device's key, "other" = another key S', "old" = the device's previous key
+	MacKey  string `json:"mac_key,omitempty"`  // rinit: "" = the device's key, "other" = the other key, "old" = the device's previous key
 	Ts      string `json:"ts,omitempty"`       // rinit: "" = newer, "same", "old"
 	Of      int    `json:"of"`                 // rresp: the peer whose device initiation is answered
 	Which   string `json:"which,omitempty"`    // rresp / rdata: "" = latest, "older"
@@ -49,6 +49,7 @@ type Scenario struct {
 	Parties []PartySpec `json:"parties"`
 	Steps   []StepSpec  `json:"steps"`
 	Gen     string      `json:"gen"`
+	NoPriv  bool        `json:"nopriv,omitempty"` // peers are configured before any private key is set
 }
 
 // ---------------------------------------------------------------- observations
@@ -71,6 +72,7 @@ type StepObs struct {
 
 type Case struct {
 	Scenario
+	DevKid     int       `json:"dev_kid"`
 	Conf       [][2]int  `json:"conf"`
 	PartyKids  []int     `json:"party_kids"`
 	Obs        []StepObs `json:"obs"`
@@ -96,8 +98,9 @@ type party struct {
 }
 
 type sess struct {
-	xid int
-	s   *ref.Session
+	xid   int
+	s     *ref.Session
+	stale bool // negotiated before the last private-key change
 }
 
 type dinit struct {
@@ -122,6 +125,10 @@ type runner struct {
 	dmsgs    []*dmsg
 	cookies  [][]byte // cookies issued by ref parties
 	otherPub ref.Key
+	devKid   int     // the device's current static key
+	prevPub  ref.Key // its previous public key ("old")
+	prevKid  int
+	nKeys    int
 	xid      int
 	refEph   int
 	devEph   int
@@ -188,18 +195,26 @@ func newRunner(sc Scenario, rng *rand.Rand) (*runner, error) {
 		r.parties = append(r.parties, p)
 		rps = append(rps, p.rp)
 	}
-	w, err := cosim.NewWorld(cosim.Config{Up: true}, true, rps...)
+	w, err := cosim.NewWorld(cosim.Config{Up: true, NoPriv: sc.NoPriv}, true, rps...)
 	if err != nil {
 		return nil, err
 	}
 	w.Timeout = 3 * time.Second
 	r.w = w
+	r.devKid = kidDev
 	for _, p := range r.parties {
 		if p.spec.Kind == "self" {
 			p.rp.Priv, p.rp.Pub = w.DevPriv, w.DevPub
 		}
 	}
 	r.otherPub = ref.PubOf(ref.NewPrivate())
+	r.prevPub, r.prevKid = r.otherPub, kidOther
+	if sc.NoPriv {
+		// the device holds the all-zero private key: an identity like any other, named 0
+		r.devKid = 0
+		w.DevPriv = ref.Key{}
+		w.DevPub = ref.PubOf(w.DevPriv)
+	}
 	return r, nil
 }
 
@@ -220,7 +235,7 @@ func (r *runner) kidOfAddr(a netip.AddrPort) int {
 
 func (r *runner) mac1Owner(msg []byte) int {
 	if ref.CheckMac1(msg, r.w.DevPub) {
-		return kidDev
+		return r.devKid
 	}
 	for _, p := range r.parties {
 		if ref.CheckMac1(msg, p.rp.Pub) {
@@ -425,13 +440,19 @@ func (r *runner) step(si int, sp StepSpec) {
 			p.tsCtr += 1 + uint64(r.rng.Intn(3))
 		}
 		ts := ref.Tai64nRaw(1<<62+p.tsCtr, 0)
-		rPub, rKid := r.w.DevPub, kidDev
-		if sp.RespKey == "other" {
+		rPub, rKid := r.w.DevPub, r.devKid
+		switch sp.RespKey {
+		case "other":
 			rPub, rKid = r.otherPub, kidOther
+		case "old":
+			rPub, rKid = r.prevPub, r.prevKid
 		}
-		mPub, mKid := r.w.DevPub, kidDev
-		if sp.MacKey == "other" {
+		mPub, mKid := r.w.DevPub, r.devKid
+		switch sp.MacKey {
+		case "other":
 			mPub, mKid = r.otherPub, kidOther
+		case "old":
+			mPub, mKid = r.prevPub, r.prevKid
 		}
 		r.refEph++
 		e := r.refEph
@@ -516,6 +537,9 @@ func (r *runner) step(si int, sp StepSpec) {
 		if sp.Which == "older" && len(p.sessions) >= 2 {
 			se = p.sessions[len(p.sessions)-2]
 		}
+		if se.stale {
+			return // keys from before the last private-key change are not used any more (see Noise/Model.v, EData)
+		}
 		pkt := ref.IPv4(p.ip, [4]byte{10, 9, 9, 9}, 40+r.rng.Intn(200), byte(r.rng.Intn(256)))
 		ctr := se.s.SendCtr
 		out := r.w.Inject(p.rp.Addr, se.s.Next(ref.Pad(pkt)))
@@ -549,6 +573,22 @@ func (r *runner) step(si int, sp StepSpec) {
 				r.c.DataOK++
 			}
 		}
+	case "setkey":
+		// UAPI private_key=: only at a quiescent point, never a configured peer's key (design findings F3b, F3c)
+		priv := ref.NewPrivate()
+		err, out := r.w.Set(fmt.Sprintf("private_key=%x\n", priv[:]))
+		if err != nil {
+			return
+		}
+		r.prevPub, r.prevKid = r.w.DevPub, r.devKid
+		r.w.DevPriv, r.w.DevPub = priv, ref.PubOf(priv)
+		r.nKeys++
+		r.devKid = kidOther + r.nKeys
+		for _, se := range r.sessions {
+			se.stale = true
+		}
+		so.Event = fmt.Sprintf("setkey %d", r.devKid)
+		r.observe(out, &so, nil)
 	case "restart":
 		// Device.Down(); Device.Up(): every peer is stopped (ZeroAndFlushAll -> Handshake.Clear) and started
 		if err := r.w.Dev.Down(); err != nil {
@@ -619,7 +659,7 @@ func runScenario(sc Scenario, rng *rand.Rand) (*Case, error) {
 		return nil, err
 	}
 	defer r.w.Close()
-	c := &Case{Scenario: sc}
+	c := &Case{Scenario: sc, DevKid: r.devKid}
 	r.c = c
 	for _, p := range r.parties {
 		c.PartyKids = append(c.PartyKids, p.kid)
@@ -664,11 +704,11 @@ func anyParty(r *rand.Rand, k int) PartySpec {
 func st(op string, party int) StepSpec { return StepSpec{Op: op, Party: party, Of: party} }
 
 func genScenario(r *rand.Rand, k int) Scenario {
-	tmpl := k % 16
-	main := anyParty(r, k/16+k)
+	tmpl := k % 19
+	main := anyParty(r, k/19+k)
 	pskParty := func() PartySpec { // a configured party whose device-side psk is NOT zero, or a mismatching one
 		l := []PartySpec{{"ok", "rand"}, {"pskmis", "rand"}, {"pskmis", "refzero"}, {"ok", "rand"}, {"pskmis", "zero"}, {"ok", "zero"}}
-		return l[(k/16)%len(l)]
+		return l[(k/19)%len(l)]
 	}
 	forged := []string{"garbage", "wrongkey", "wrongad", "oldad"}
 	switch tmpl {
@@ -743,18 +783,32 @@ func genScenario(r *rand.Rand, k int) Scenario {
 	case 12: // an unauthentic cookie reply before a retransmitted initiation and before a response
 		p := pick(r, okKinds)
 		return Scenario{Parties: []PartySpec{p}, Gen: "forged-cookie-initiator",
-			Steps: []StepSpec{st("kick", 0), {Op: "cookie", Party: 0, Of: 0, Kind: forged[(k/16)%4]}, st("kick", 0),
+			Steps: []StepSpec{st("kick", 0), {Op: "cookie", Party: 0, Of: 0, Kind: forged[(k/19)%4]}, st("kick", 0),
 				{Op: "cookie", Party: 0, Of: 0, Kind: forged[r.Intn(4)]}, st("rresp", 0), st("rdata", 0), st("rinit", 0), st("kick", 0)}}
 	case 13: // the same with the device as responder (receiver = index of its response = keypair index)
 		p := pick(r, okKinds)
 		return Scenario{Parties: []PartySpec{p, pick(r, outKinds)}, Gen: "forged-cookie-responder",
-			Steps: []StepSpec{st("rinit", 0), {Op: "cookie", Party: 1, Of: 0, Kind: forged[(k/16)%4]}, st("rinit", 0),
+			Steps: []StepSpec{st("rinit", 0), {Op: "cookie", Party: 1, Of: 0, Kind: forged[(k/19)%4]}, st("rinit", 0),
 				{Op: "cookie", Party: 0, Of: 0, Kind: forged[r.Intn(4)]}, st("kick", 0), st("rdata", 0), st("rinit", 0)}}
 	case 14: // an authentic cookie reply: MAC2 is then the MAC under that cookie, also across a restart
 		p := pick(r, okKinds)
 		return Scenario{Parties: []PartySpec{p}, Gen: "authentic-cookie",
 			Steps: []StepSpec{st("kick", 0), {Op: "cookie", Party: 0, Of: 0, Kind: "authentic"}, st("kick", 0), st("restart", 0),
 				st("kick", 0), st("rresp", 0), st("rinit", 0), st("rdata", 0)}}
+	case 15: // key rotation with configured peers, then ref initiates: old identity refused, new one completes
+		return Scenario{Parties: []PartySpec{pskParty(), pick(r, okKinds)}, Gen: "key-rotation-ref-initiates",
+			Steps: []StepSpec{st("rinit", 0), st("rdata", 0), st("setkey", 0), {Op: "rinit", Party: 0, RespKey: "old", MacKey: "old"},
+				{Op: "rinit", Party: 0, RespKey: "old"}, st("rinit", 0), st("rdata", 0), st("tun", 0), st("rinit", 1), st("rdata", 1)}}
+	case 16: // key rotation, then the device initiates under the new identity
+		return Scenario{Parties: []PartySpec{pskParty()}, Gen: "key-rotation-device-initiates",
+			Steps: []StepSpec{st("tun", 0), st("rresp", 0), st("rdata", 0), st("setkey", 0), st("tun", 0), st("rresp", 0), st("rdata", 0),
+				st("tun", 0), st("setkey", 0), st("kick", 0), st("rresp", 0)}}
+	case 17: // peers configured first, the private key in a later set operation
+		steps := []StepSpec{st("setkey", 0), st("rinit", 0), st("rdata", 0), st("tun", 0), st("kick", 1), st("rresp", 1), st("rdata", 1)}
+		if (k/19)%2 == 1 {
+			steps = []StepSpec{st("setkey", 0), st("tun", 0), st("rresp", 0), st("rdata", 0), st("rinit", 1), st("rdata", 1), st("tun", 1)}
+		}
+		return Scenario{Parties: []PartySpec{pskParty(), pick(r, okKinds)}, Gen: "peers-before-key", NoPriv: true, Steps: steps}
 	default: // several peers, random interleaving
 		n := 2 + r.Intn(3)
 		var ps []PartySpec
@@ -778,6 +832,8 @@ func genScenario(r *rand.Rand, k int) Scenario {
 					s.RespKey = "other"
 				case 3:
 					s.MacKey = "other"
+				case 4:
+					s.RespKey, s.MacKey = "old", "old"
 				}
 			case x < 40:
 				s.Op = "rresp"
@@ -796,8 +852,10 @@ func genScenario(r *rand.Rand, k int) Scenario {
 				s.Op = "tun"
 			case x < 90:
 				s.Op = "kick"
-			case x < 94:
+			case x < 93:
 				s.Op = "restart"
+			case x < 95:
+				s.Op = "setkey"
 			default:
 				s.Op = "cookie"
 				s.Kind = []string{"authentic", "garbage", "wrongkey", "wrongad", "oldad"}[r.Intn(5)]
@@ -848,7 +906,7 @@ func pack7(bs []byte) string {
 
 func gallina(c *Case) string {
 	var b strings.Builder
-	b.WriteString("mk_case 1 [")
+	fmt.Fprintf(&b, "mk_case %d [", c.DevKid)
 	for i, kp := range c.Conf {
 		if i > 0 {
 			b.WriteString(";")
@@ -911,7 +969,7 @@ func writeShard(path string, cases []*Case) error {
 
 func main() {
 	seed := flag.Int64("seed", 1, "PRNG seed")
-	n := flag.Int("n", 64, "number of scenarios")
+	n := flag.Int("n", 76, "number of scenarios")
 	shards := flag.Int("shards", 8, "case files")
 	out := flag.String("out", "out/C03", "output directory")
 	replayIn := flag.String("replay", "", "JSON file with scenarios (parties + steps) to run")
